@@ -328,3 +328,18 @@ def sctp_jumbo_malformed(rnd):
     value = value[:len(value) - len(value) % 4]
     raw = struct.pack('!BBH', ctype, 0, 4 + len(value)) + value
     return sctp(rnd, chunks=[(raw, dict(ctype=ctype))])[0]
+
+
+def minimal_packets(rnd):
+    """the smallest well-formed packet of every parser configuration -- a header and nothing behind it (IPv6 / IPv4 without payload and a
+    next header nobody parses, a UDP datagram without data, a 4-byte CoAP message, an SCTP common header without chunk) -- and the two
+    explicit stacks down to their last header; each as (stack, bytes).  One byte less must be rejected, one byte more is payload."""
+    nh = rnd.choice([59, 253, 254])
+    out = [('IPv6', ipv6(rnd, b'', nh)), ('IPv4', ipv4(rnd, b'', nh)),
+           ('UDP', udp(rnd, b'', csum=lambda x: rnd.randrange(1, 65536), dport=rnd.choice([0, 53, 9899, 65535]))),
+           ('CoAP', coap(rnd, opts=[], tkl=0, payload=b'')[0]), ('SCTP', sctp(rnd, chunks=[])[0])]
+    c_ = coap(rnd, opts=[], tkl=0, payload=b'')[0]
+    s6, d6, s4, d4 = rnd.randbytes(16), rnd.randbytes(16), rnd.randbytes(4), rnd.randbytes(4)
+    out.append(('IPv6-UDP-CoAP', ipv6(rnd, udp(rnd, c_, csum=lambda x: udp_checksum_v6(s6, d6, x)), 17, s6, d6)))
+    out.append(('IPv4-UDP-CoAP', ipv4(rnd, udp(rnd, c_, csum=lambda x: udp_checksum_v4(s4, d4, x)), 17, s4, d4)))
+    return out
